@@ -203,7 +203,7 @@ PROPS = {
     "C12": {
         "module": "Sfv.Props.C12",
         "tables": ["tables_schema_tags", "tables_prim_widths"],
-        "suites": [schemaof(4, 20), schemas(2, 8)],
+        "suites": [schemaof(4, 20), schemas(2, 8), codec(2, 10)],
         "oracle": ["C12"],
     },
     "C13": {
